@@ -40,7 +40,7 @@ func init() {
 			// operation let in at its lock-release points (the C09 job)
 			jobs = append(jobs, c09Interfere(1, 1, 2))
 			if tier == "thorough" {
-				jobs = append(jobs, c09Interfere(2, 1, 2))
+				jobs = append(jobs, c09Interfere(2, 1, 1))
 				jobs = append(jobs, mk("HarnessC08Key", 2, 3), mk("HarnessC08Key", 3, 2), mk("HarnessC08Key", 4, 1),
 					mk("HarnessC08Prefix", 1, 5), mk("HarnessC08Metric", 3, 1), mk("HarnessC08Metric", 2, 3))
 			}
@@ -107,7 +107,7 @@ func init() {
 				pre.Name += "-preemit"
 				pre.Params["preemit"] = 1
 				pre.Bound = "a metric holding one tuple that has been enumerated once, then " + pre.Bound
-				return []JobDef{pre, mk(1, 1, 4, 0), mk(2, 1, 3, 0), mk(1, 2, 3, 0), mk(0, 1, 4, 0), mk(1, 1, 3, 1), mk(1, 1, 3, 2), mk(1, 1, 3, 3), mk(2, 2, 2, 0), c09Interfere(1, 1, 3), c09Interfere(2, 1, 2)}
+				return []JobDef{pre, mk(1, 1, 4, 0), mk(2, 1, 3, 0), mk(1, 2, 3, 0), mk(0, 1, 4, 0), mk(1, 1, 3, 1), mk(1, 1, 3, 2), mk(1, 1, 3, 3), mk(2, 2, 2, 0), c09Interfere(1, 1, 3), c09Interfere(2, 1, 1)}
 			}
 			pre := mk(1, 1, 2, 0)
 			pre.Name += "-preemit"
